@@ -7,6 +7,7 @@
 import Rsp.Model.World
 import Rsp.Hash.Md5
 import Drive.Ops
+import Rsp.Model.Dns
 namespace Drive
 open Rsp Rsp.Radmsg Rsp.Rewrite Rsp.World
 
@@ -273,6 +274,32 @@ end Drive
 namespace Drive
 open Rsp Rsp.Radmsg Rsp.Rewrite Rsp.World
 
+/-- `dnsq naptr|srv <retlen> <hex answer>` with the recorded name decodings `dn:<pos>:<ret>:<hex>` -/
+def dnsModel (args tr : List String) : String :=
+  let names' : Dns.NameOracle := fun pos =>
+    (tr.findSome? fun t => match t.splitOn ":" with
+      | ["dn", p, r, h] =>
+        if p.toNat? = some pos then
+          (match r.toNat? with
+           | some n => some (some (n, (ofHex h).getD []))
+           | none => some (none : Option (Nat × Bytes)))
+        else none
+      | _ => none).join
+  match args with
+  | [kind, retlen, h] =>
+    match retlen.toInt?, ofHex h with
+    | some rl, some ans =>
+      if kind = "naptr" then
+        match Dns.queryNaptr names' ans rl with
+        | none => "null"
+        | some rs => "naptr" ++ String.join (rs.map fun r => s!" {r.order}:{r.pref}:{toHex (cstr r.flags)}:{toHex (cstr r.services)}:{toHex (cstr r.regexp)}:{toHex r.replacement}")
+      else
+        match Dns.querySrv names' ans rl with
+        | none => "null"
+        | some rs => "srv" ++ String.join (rs.map fun r => s!" {r.priority}:{r.weight}:{r.port}:{toHex r.host}")
+    | _, _ => "bad-op"
+  | _ => "bad-op"
+
 /-- world ops plus the ops that need the named rewrite blocks of the configuration -/
 def worldOp (st : Option DState) (op : String) (args tr : List String) : Option DState × String :=
   match op, args, st with
@@ -292,6 +319,8 @@ def worldOp (st : Option DState) (op : String) (args tr : List String) : Option 
       else (some d, "rv=0")
   | "locks", _, st => (st, "locks")        -- observations of the real code only: nothing to predict
   | "rxeval", _, st => (st, "rxeval")
+  | "dnsq", _, st => (st, dnsModel args tr)
+  | "dnsqx", _, st => (st, "dnsqx")
   | "fault", _, st => (st, "fault")         -- the outcome under an allocation failure is judged by the monitor, not predicted
   | _, _, some d =>
     let (w, out) := worldOp1 (some d.w) op args tr
